@@ -564,6 +564,7 @@ func init() {
 				Limits: bastion.RequestLimits{TotalPerSecond: rate.Limit(1e9)}}, cw), 16*1024)
 			r := NewRng(p.Seed ^ 0xc11)
 			only := p.Cfg.Notes["only"] // replay of one delivery: "<msg#>/<kind>/<offset>"
+			var back witness.Proof      // one receiver for all round trips: reading a proof must not depend on what the variable held before
 			deliver := func(body []byte, endAt, errAt, maxChunk int, chunkSeed uint64) (int, int) {
 				before := len(cw.calls)
 				rec := httptest.NewRecorder()
@@ -588,8 +589,7 @@ func init() {
 				chunkSeed := r.Uint64()
 				want := func(kind string, off int) bool { return only == "" || only == fmt.Sprintf("%d/%s/%d", mi, kind, off) }
 				// round trip of the common proof format, on the same data
-				if want("roundtrip", 0) {
-					var back witness.Proof
+				{ // always executed, also in a replay of one delivery: the receiver is shared, so earlier round trips matter
 					if err := back.Unmarshal([]byte(witness.Proof(m.Proof).Marshal())); err != nil || len(back) != len(m.Proof) {
 						return fail("roundtrip_mismatch", "proof_format", fmt.Sprintf("%d/roundtrip/0", mi), fmt.Sprintf("Proof.Marshal/Unmarshal of %d hashes: err=%v got %d", len(m.Proof), err, len(back)))
 					}
